@@ -20,7 +20,7 @@ def c05(tier, seed):
     m = run_sliced(e3, ["merge", "--max-pure", str(k_pure), "--max-fs", str(k_fs)])
     r.absorb(m, "merge.")
     args = ["sched", "--bound", str(bound)] + (["--thorough"] if tier == "thorough" else [])
-    s = run_sliced(e3, args)
+    s = run_sliced(e3, args, slices=64)
     r.absorb(s, "sched.")
     r.extra["bounds"] = {"pure_subset_size": k_pure, "exporter_subset_size": k_fs, "preemption_bound": bound,
                          "threads": "2-3", "exports_per_thread": "1-3"}
@@ -149,7 +149,7 @@ def c13(tier, seed):
     m = run_sliced(e3, args, slices=32)
     r.absorb(m, "determ.")
     bound = 2 if tier == "quick" else 3
-    s = run_sliced(e3, ["sched", "--bound", str(bound)] + (["--thorough"] if tier == "thorough" else []))
+    s = run_sliced(e3, ["sched", "--bound", str(bound)] + (["--thorough"] if tier == "thorough" else []), slices=64)
     r.absorb(s, "sched.")
     if tier == "thorough":
         r.extra["fresh_compilation_cross_check"] = fresh_compile_crosscheck(r)
